@@ -1,6 +1,7 @@
 package checks
 
 import (
+	"encoding/hex"
 	"fmt"
 	"math"
 	"math/big"
@@ -32,6 +33,7 @@ type C16Arg struct {
 	S string  `json:"s,omitempty"`
 	F float64 `json:"f,omitempty"`
 	B bool    `json:"b,omitempty"`
+	X string  `json:"x,omitempty"` // K=s: the bytes of the string in hex, for strings that are not valid UTF-8
 }
 
 type C16Case struct {
@@ -45,6 +47,10 @@ type C16Case struct {
 func (a C16Arg) goValue() (any, bool) {
 	switch a.K {
 	case "s":
+		if a.X != "" {
+			b, err := hex.DecodeString(a.X)
+			return string(b), err == nil // any byte sequence is a Go string
+		}
 		return a.S, utf8.ValidString(a.S)
 	case "i":
 		i, err := strconv.ParseInt(a.S, 10, 64)
@@ -63,6 +69,9 @@ func (a C16Arg) goValue() (any, bool) {
 func (a C16Arg) refLiteral() string {
 	switch a.K {
 	case "s":
+		if v, ok := a.goValue(); ok {
+			return sq.StrLit(v.(string))
+		}
 		return sq.StrLit(a.S)
 	case "i":
 		if strings.HasPrefix(a.S, "-") {
@@ -143,6 +152,15 @@ func genC16Arg(t *rapid.T, label string) C16Arg {
 		return C16Arg{K: "b", B: rapid.Bool().Draw(t, label+".b")}
 	case 5:
 		return C16Arg{K: "n"}
+	case 6:
+		// strings are byte sequences: invalid UTF-8 (stray continuation and lead bytes, truncated and overlong
+		// sequences) mixed with the characters that need escaping
+		n := rapid.IntRange(1, 6).Draw(t, label+".xn")
+		var sb strings.Builder
+		for i := 0; i < n; i++ {
+			sb.WriteString(rapid.SampledFrom([]string{"\xff", "\xfe", "\x80", "\xe6\x97", "\xc0\xaf", "\xf0\x9f", "'", "'", "\\", "a", "' OR 'a' = 'a", "\"", "`", "--", "/*", "é", "\x00"}).Draw(t, fmt.Sprintf("%s.x%d", label, i)))
+		}
+		return C16Arg{K: "s", X: hex.EncodeToString([]byte(sb.String()))}
 	default:
 		return C16Arg{K: "s", S: genC16String(t, label+".s")}
 	}
@@ -461,6 +479,10 @@ func checkC16(c *C16Case) Result {
 		}
 		args[i] = v
 		res.Labels = append(res.Labels, "arg:"+a.K)
+		if a.X != "" {
+			res.Labels = append(res.Labels, "arg:string-that-is-not-valid-UTF-8")
+			hostile = true
+		}
 		if a.K == "s" && c16Hostility(a.S) {
 			hostile = true
 		}
@@ -589,7 +611,7 @@ func init() {
 			"Echo mode: `SELECT $1 AS v FROM dual` (or two arguments, under PostgresEscapingDialect / IdiomaticArrays in half of those) executed through New/Exec returns exactly the argument(s). Err mode: missing argument, unused " +
 			"argument (anywhere in the list, incl. a gap of the placeholder numbering), `$0` -> error, no panic. Non-trivial: a string argument containing ' \\ \" ` -- /* # NUL or a multi-byte rune, or a decoy present, or err mode.",
 		Assumptions: []string{
-			"arguments are valid UTF-8 strings, int64, finite float64, bool or nil (the types the statement lists)",
+			"arguments are strings (any byte sequence, a tenth of them not valid UTF-8), int64, finite float64, bool or nil (the types the statement lists)",
 			"placeholders are separated from neighbouring tokens by an operator, comma, parenthesis or white space; comments contain no backslash or carriage return",
 			"the reference literal renderer (sq.StrLit) is MySQL-correct; it is itself checked by the echo mode and by C17",
 		},
